@@ -406,6 +406,14 @@ theorem sum_enumN_prod (dims : Nat → Nat) (e : Nat → Nat → Rat) : ∀ n,
     intro i hi
     rw [List.getD_append _ _ _ _ (by omega)]
 
+/-- **a product of distributions is a distribution**: per-factor entries that sum to exactly one (the learned cooperative models'
+    rows: `learned_rows_are_distributions`; dyadic supplied tables) give a joint that sums to exactly one over the whole space,
+    whatever the number of factors and their sizes -/
+theorem product_of_distributions (dims : Nat → Nat) (e : Nat → Nat → Rat) (n : Nat)
+    (h : ∀ i < n, ((List.range (dims i)).map (e i)).sum = 1) :
+    ((enumN dims n).map (fun t => prodIdx (fun i => e i (t.getD i 0)) n)).sum = 1 := by
+  rw [sum_enumN_prod, prodIdx_congr _ (fun _ => 1) _ h, prodIdx_one]
+
 /-- **the joint row sums to the product of the sums of the rows it is built from** (any graph, any matrices) -/
 theorem joint_row_sum (g : Graph) (mats : List Mat) (s a : List Nat) :
     (jointRow g mats s a).sum =
